@@ -249,6 +249,28 @@ func c07a(c *Ctx) {
 			c.Bad(key+"/unknown-builder", pos, "write to an unexpected builder")
 		}
 	}
+	// wrap decision: taken exactly when the projected width exceeds the maximum and the line
+	// builder itself is non-empty (zero-width content such as control codes still counts as content)
+	for _, f := range bcs {
+		if !isFlush(f.call) || !loopBody(head)[f.call.Block()] || hasLit(c.mustLits(fn, f.call.Block()), "+"+isBreakLit) {
+			continue
+		}
+		must := c.mustLits(fn, f.call.Block())
+		over, nonEmpty := false, false
+		var others []string
+		for _, l := range must {
+			switch {
+			case strings.HasPrefix(l, "+($2 < "):
+				over = true
+			case strings.HasPrefix(l, "+(0 < (*strings.Builder).Len("+c.term(fn, lineSb)+")@"):
+				nonEmpty = true
+			case l == "-"+isBreakLit || strings.Contains(l, "builtin:len("):
+			default:
+				others = append(others, l)
+			}
+		}
+		c.Check(over && nonEmpty && len(others) == 0, "wrap/iff-overflow-and-line-not-empty", c.W.Pos(f.call.Pos()), "a line is wrapped exactly when the projected width exceeds maxWidth and the current line has content", fmt.Sprintf("the wrap is taken under %v; expected exactly (projected width > maxWidth) and (current line builder non-empty) — zero-width content must still allow a wrap, an empty line must not", must))
+	}
 	// words come from getNextWord on the remaining text, in order (pos advances by the returned offset)
 	okNext := false
 	for _, e := range wordPhi.Edges {
